@@ -443,6 +443,10 @@ class WorldC16(World):
             if rel > TOL_AMOUNT / 10:
                 ctx.near_miss['amounts'] += 1
         byname = dict(zip(names, n.tolist()))
+        if record and deep and not ctx.allow('C16-deep-trace'):
+            record = False          # known finding: the returned composition may be a stalled iterate; not compared either
+        if record and not ref['converged']:
+            record = False
         if record:
             key = (T, P)
             # reuse: the same object at the same condition gives what it gave before (and what a twin gives)
